@@ -59,6 +59,24 @@ fn main() {
                 }
             }
         }
+        "show" => {
+            // debugging aid: run the case of a replay file and print the history and every violation
+            let rep = read_replay(&PathBuf::from(&args[2])).unwrap();
+            let (run, _) = run_on_thread(&rep.case).unwrap();
+            let v = hv_sim::analysis::View::new(&rep.case, &run);
+            for l in v.excerpt(2000) {
+                println!("{l}");
+            }
+            println!("{:?}", run.flags);
+            for (a, av) in v.actors.iter().enumerate() {
+                println!("actor {a}: first_cause={} task_end={:?} graceful={} stopped_exit={:?}", av.first_cause, av.task_end, av.graceful, av.stopped_exit);
+            }
+            let vd = hv_sim::oracle::check(&rep.case, &run);
+            for x in &vd.violations {
+                println!("VIOL {} :: {}", x.sig, x.detail);
+            }
+            println!("classes {:?} nontrivial {}", vd.classes, vd.nontrivial);
+        }
         "decode" => {
             // debugging aid: decode a fuzzer input the way the fuzz target does
             let fam = args.get(2).and_then(|s| Family::parse(s)).unwrap_or_else(|| usage());
